@@ -158,7 +158,10 @@ class Scenario:
             return await coro_fn()
         except Exception as exc:
             if not self.close_tasks:
-                self.fail("driver-raised:" + type(exc).__name__, f"{name} raised {exc!r} before any close()")
+                # the scenario did not get as far as planned (the extras can make a later call of the script illegal: an
+                # offer made before a transceiver was stopped, an answer to an offer that was replaced meanwhile); that
+                # is no statement about close(), which is still issued and judged below
+                self.classes.add("driver-call-raised:" + type(exc).__name__)
             self.driver_errors.append((name, type(exc).__name__))
             raise
         finally:
